@@ -88,7 +88,7 @@ pub(crate) fn enable_active_connect(peer: &mut Peer, ch: mpsc::UnboundedSender<T
 fn plan(property: &str) -> BatchPlan {
     match property {
         "C04" => BatchPlan { quick_runs: 10_000, thorough_runs: 300_000 },
-        _ => BatchPlan { quick_runs: 100_000, thorough_runs: 5_000_000 },
+        _ => BatchPlan { quick_runs: 300_000, thorough_runs: 5_000_000 },
     }
 }
 
